@@ -172,6 +172,11 @@ var RangeFunc = function.New(&function.Spec{
 		if step.RawEquals(cty.Zero) {
 			return cty.NilVal, function.NewArgErrorf(2, "step must not be zero")
 		}
+		if step.AsBigFloat().IsInf() {
+			// Adding an infinite step to an infinity of the opposite sign is
+			// not defined, and no finite sequence can be produced anyway.
+			return cty.NilVal, function.NewArgErrorf(2, "step must not be infinite")
+		}
 		down := step.LessThan(cty.Zero).True()
 
 		if down {
